@@ -16,11 +16,11 @@ pub fn n_cases(ctx: &Ctx) -> u64 {
         ("miri", true) => 40,
         ("vg", false) => 40,
         ("vg", true) => 400,
-        ("dbg", false) => 250,
+        ("dbg", false) => 800,
         ("dbg", true) => 4000,
         ("asan", false) => 600,
         ("asan", true) => 12000,
-        (_, false) => 2600,
+        (_, false) => 9000,
         (_, true) => 60000,
     };
     STEER + ctx.scaled(base)
